@@ -197,7 +197,7 @@ func diffCanon(a, b *output) string {
 	return strings.Join(msgs, "\n")
 }
 
-var identWord = regexp.MustCompile(`[A-Za-z0-9_]+`)
+var identWord = regexp.MustCompile(`[\pL\p{Nd}_]+`)
 
 var deriveWord = regexp.MustCompile(`(^|[^A-Za-z0-9_])derive([A-Z][A-Za-z0-9_]*)`)
 
